@@ -47,6 +47,12 @@ var c11Progs = []c11prog{
 		return fmt.Sprintf("(do (def m-%d (memoize (fn [x] (+ x %d)))) (list (m-%d 1) (m-%d 1)))", i, i, i, i)
 	}},
 	{"future-deref", true, func(i int) string { return fmt.Sprintf("(let [f (future (+ %d 1))] (deref f))", i) }},
+	// a macro of the shared environment redefined (to the same macro) while another thread expands a call
+	// of it: the name is a macro at every instant, its operand is never evaluated
+	{"redefine-shared-macro", true, func(i int) string {
+		return fmt.Sprintf("(do (defmacro qm (fn [x] (list (quote quote) x))) (qm (mine %d)))", i)
+	}},
+	{"call-shared-macro", true, func(i int) string { return fmt.Sprintf("(list (qm (nosuch %d)) (qm (nosuch %d)))", i, i) }},
 	{"thread-first", true, func(i int) string { return fmt.Sprintf("(-> %d (+ 1) (list 2))", i) }},
 }
 
@@ -106,7 +112,7 @@ func init() {
 		}
 		newShared := func() types.EnvType {
 			sh := env.NewSubordinateEnv(base)
-			for _, s := range []string{"(def shared [1 2 3])", "(def sharedmap {:a 1})"} {
+			for _, s := range []string{"(def shared [1 2 3])", "(def sharedmap {:a 1})", "(defmacro qm (fn [x] (list (quote quote) x)))"} {
 				if _, err, p := lx.Eval(context.Background(), lx.MustRead(s), sh); err != nil || p != nil {
 					panic("c11 shared setup")
 				}
